@@ -24,6 +24,10 @@ def run(ctx):
     eoom.run(ctx, F)
     ctx.explain("E-FREELIST.count: an OutOfMemory exit of get_slot_from_shared undoes the +1 it added to the shared node count.")
     efreelist.check_count_bookkeeping(ctx, F)
+    ctx.explain("E-FREELIST.lastresort: get_slot_from_shared answers OutOfMemory only after consulting the shared free lists "
+                "(slots freed by a collection come back through them only; the array's high-water mark never decreases).")
+    n = efreelist.check_oom_last_resort(ctx, F)
+    ctx.floor("E-FREELIST.lastresort", "get_slot_from_shared bodies", n, 1)
     ctx.explain("E-FREELIST.term: the dynamic terminal manager's gc writes the free list it built back to its state "
                 "(freed terminal slots are reusable by the retry).")
     efreelist.check_terminal_gc(ctx, F)
